@@ -222,6 +222,45 @@ def check_single(d, ck):
             ck.run("positive", c, lambda: +base, {(0,): a, (1,): b}, d, d)
         ck.run("sum", c, lambda: numpoly.sum(base, axis=0), {(0,): numpy.sum(a, axis=0), (1,): numpy.sum(b, axis=0)},
                numpy.sum(a, axis=0).dtype, d)
+    # linear algebra keeps the values numpy computes: the determinant of narrow integers does not wrap
+    # (numpy.linalg.det works in floating point), boolean matmul / inner are "or of ands", not counts
+    with warnings.catch_warnings(), numpy.errstate(all="ignore"):
+        warnings.simplefilter("ignore")
+        hi = edge(d)[0]
+        if numpy.dtype(d).kind in "iu" and numpy.dtype(d).itemsize == 8:
+            hi = numpy.dtype(d).type(2 ** 31)  # (twice the largest 64 bit integer has no exact integer result)
+        m = numpy.array([[hi, 0], [0, 2]], dtype=d)
+        try:
+            want = complex(numpy.linalg.det(m))
+        except Exception:
+            want = None
+        if want is not None:
+            ck.n += 1
+            try:
+                got = complex(numpoly.det(numpoly.polynomial(m)).tonumpy())
+                mq = numpoly.polynomial_from_attributes([[1]], [m])
+                gq = numpoly.det(mq)
+                gq = {tuple(e): complex(cc) for e, cc in zip(gq.exponents.tolist(), gq.coefficients)}.get((2,), 0)
+                for what, g in (("constant", got), ("times q0", gq)):
+                    if abs(g - want) > 1e-9 * max(1.0, abs(want)):
+                        ck.fail("det", "value", c, "%s, [[%r, 0], [0, 2]] (%s): %r, numpy.linalg.det gives %r" % (d, hi, what, g, want))
+                        break
+            except Exception as err:
+                ck.fail("det", "exception:" + type(err).__name__, c, "%s: %r" % (d, err))
+        xs = data(d, (2, 2)) if d != "bool" else numpy.ones((2, 2), dtype=bool)
+        for fname in ("matmul", "inner", "outer"):
+            try:
+                want = getattr(numpy, fname)(xs, xs)
+            except Exception:
+                continue
+            ck.n += 1
+            try:
+                got = getattr(numpoly, fname)(numpoly.polynomial(xs), numpoly.polynomial(xs)).tonumpy()
+            except Exception as err:
+                ck.fail(fname, "exception:" + type(err).__name__, c, "%s: %r" % (d, err))
+                continue
+            if got.shape != want.shape or not numpy.array_equal(got, want):
+                ck.fail(fname, "value", c, "%s: %s, numpy gives %s" % (d, got.tolist(), want.tolist()))
     # products accumulate like numpy.prod: narrow integers in the platform integer
     xe = edge(d)[:2]
     pe = numpoly.polynomial_from_attributes([[1]], [xe])
